@@ -2,6 +2,7 @@ package main
 
 import (
 	"fmt"
+	"os"
 	"go/ast"
 	"go/token"
 	"go/types"
@@ -199,6 +200,14 @@ func (f *frame) applyContract(ct *Contract, callee *ssa.Function, args []Val, st
 		if !ms.top {
 			keep = func(n string) bool { return !ms.has(n) }
 		}
+	}
+	if os.Getenv("GVC_TRACE_MODS") != "" {
+		desc := fmt.Sprint(ct.Modifies)
+		if !ct.HasMod && callee != nil {
+			ms := c.eng.summaryOf(callee).mods
+			desc = fmt.Sprintf("inferred top=%v %v pats=%v", ms.top, ms.list(), ms.pats)
+		}
+		fmt.Fprintf(os.Stderr, "MODS contract %s hasmod=%v %s\n", ct.FuncName, ct.HasMod, desc)
 	}
 	nh := c.heapHavoc(st.heap, "ct_"+sanitize(ct.FuncName), keep)
 	{
